@@ -5,6 +5,7 @@ import (
 	"flag"
 	"fmt"
 	"os"
+	"os/exec"
 	"path/filepath"
 	"runtime"
 	"runtime/debug"
@@ -560,6 +561,7 @@ func writeEvidence(id, tier string, seed int, results []*EntryResult, h *Harness
 			"traces_validated_against_impl": tracesValidated,
 			"samples":                       samples,
 			"status":                        status,
+			"repo_revision":                 repoRevision(),
 			"technique":                     "bounded symbolic execution of go/ssa from /repo's working tree; every path condition and assertion decided by z3 (QF_BV); states = feasible paths, transitions = symbolic branch decisions",
 			"entries":                       results,
 			"obligations":                   obl,
@@ -693,4 +695,19 @@ func lastLines(s string, n int) string {
 		l = l[len(l)-n:]
 	}
 	return strings.Join(l, "\n")
+}
+
+// repoRevision names the tree the encoding was generated from: HEAD of the
+// repository under test plus whether the working tree differs from it.
+func repoRevision() string {
+	out, err := exec.Command("git", "-C", repoDir, "rev-parse", "--short", "HEAD").Output()
+	if err != nil {
+		return "unknown"
+	}
+	rev := strings.TrimSpace(string(out))
+	st, _ := exec.Command("git", "-C", repoDir, "status", "--porcelain", "--untracked-files=no").Output()
+	if len(strings.TrimSpace(string(st))) > 0 {
+		rev += "+modified-working-tree"
+	}
+	return repoDir + "@" + rev
 }
